@@ -923,7 +923,9 @@ func ParseAtomString(key string) *Term {
 }
 
 // LogExpand rewrites t into a normal form in which powers and logarithms of products are expanded:
-//   pow(u, e)  ->  exp(e * log u),      log(c * prod a_i^k_i / (d * prod b_j^m_j))  ->  log(c/d) + sum k_i log a_i - sum m_j log b_j
+//
+//	pow(u, e)  ->  exp(e * log u),      log(c * prod a_i^k_i / (d * prod b_j^m_j))  ->  log(c/d) + sum k_i log a_i - sum m_j log b_j
+//
 // (for single-monomial numerator and denominator). The rewriting is valid where all factors are positive; it is used
 // to compare two expressions of a density on its support, where the code and the reference may group factors differently.
 func LogExpand(t *Term) *Term {
